@@ -41,7 +41,11 @@ def main():
         ok = any(c['exit'] == 1 and c['violations'] for c in caught.values())
         print(f"{sid:28s} {'CAUGHT' if ok else 'MISSED':7s} " + ' '.join(f"{p}:exit{c['exit']}/v{c['violations']}(noinput {c['no_input']})/u{c['undecided']}/{c['wall_s']}s" for p, c in caught.items()))
         rows.append({'id': sid, 'caught': ok, 'checks': caught})
-    json.dump(rows, open(os.path.join(HERE, 'seeded', 'last_eval.json'), 'w'), indent=1)
+    path_ = os.path.join(HERE, 'seeded', 'last_eval.json')
+    try: prev = {r['id']: r for r in json.load(open(path_))}
+    except Exception: prev = {}
+    prev.update({r['id']: r for r in rows})           # partial runs update their own rows only
+    json.dump([prev[k] for k in sorted(prev)], open(path_, 'w'), indent=1)
     # restore clean evidence is the caller's job (re-run the checks on the clean tree before committing evidence)
 
 
